@@ -55,6 +55,9 @@ def gen_batch(rng, ncand=40):
         ctx.structs[nm] = {"size": sz, "align": gen.PSIZE[fl[0][0]], "objs": 0, "fields": fl, "file": 0}
         decls.append(("struct", nm, fl))
     cands = [
+        # two (and three) by-value parameters of the same big struct type in one direction
+        [("in", "B0", None, "p0"), ("in", "B0", None, "p1"), ("out", "uint32", None, "p2")],
+        [("in", "B1", None, "p0"), ("out", "B0", None, "p1"), ("in", "B1", None, "p2"), ("out", "B0", None, "p3"), ("in", "B1", None, "p4")],
         [("out", "N2", None, "p0"), ("in", "uint32", None, "p1")],
         [("out", "N1", None, "p0"), ("out", "uint32", None, "p1"), ("in", "uint8", None, "p2")],
         [("out", "N2", None, "p0"), ("out", "N1", None, "p1")],
@@ -64,7 +67,7 @@ def gen_batch(rng, ncand=40):
         [("in", "P8", None, "p0"), ("in", "uint64", None, "p1"), ("in", "float64", None, "p2"), ("out", "float64", None, "p3"), ("out", "P8", None, "p4"), ("out", "int64", None, "p5")],
         [("in", "P2", None, "p0"), ("in", "uint16", None, "p1"), ("in", "uint8", None, "p2"), ("in", "P2", None, "p3"), ("in", "int16", None, "p4")],
         [("in", "float32", None, "p0"), ("in", "P4", None, "p1"), ("in", "int32", None, "p2"), ("in", "P8", None, "p3"), ("in", "uint64", None, "p4"), ("out", "P2", None, "p5"), ("out", "uint16", None, "p6")],
-    ] if ncand >= 12 else []
+    ] if ncand >= 14 else []
     while len(cands) < ncand:
         ps = []
         arr = {"in": False, "out": False}
